@@ -113,7 +113,18 @@ func Variants(msaIn io.Reader, stdin bool, refID string, annoIn io.Reader, annoS
 		case err := <-cErr:
 			return err
 		case <-cMSADone:
-			return errors.New("is the pipe to --msa empty?") // TO DO - does this work/is this necessary?
+			// the reader may have buffered every record and finished before this select ran:
+			// the pipe was empty only if no record is waiting
+			select {
+			case ref = <-cMSA:
+				if ref.ID != refID {
+					return errors.New("--reference is not the first record in --msa")
+				}
+				firstmissing = true
+				go func() { cMSADone <- true }() // hand the reader's completion on to the loop below
+			default:
+				return errors.New("is the pipe to --msa empty?")
+			}
 		}
 	}
 
